@@ -18,6 +18,28 @@ VERIF = Path(__file__).resolve().parents[1]
 
 # focus per round: two anchored mechanisms (quoted from the property's anchors) per property
 FOCUS = {
+    "6": {
+        "C01": ["two-child removal via the in-order neighbour and the rebalParent loop (which neighbour is taken, what is re-linked, which heights are refreshed) in Map OR MultiMap", "removeFront/removeBack/clear/size bookkeeping, the begin/end sentinels, or the iterator a removal / hinted insert returns (two cooperating sites that each look fine alone)"],
+        "C02": ["remove unlinks the bucket chain and the order list (remove by iterator in the middle of a collision chain, removeFront/removeBack, bulk remove)", "positional insert (insert before a given iterator) / prepend ordering, operator== between tables built in different orders, or copy / assignment with a different capacity"],
+        "C03": ["List insert/remove relinking or PoolList in-place construction and free-slot reuse across clear()/swap()", "Array(capacity) / reserve / resize(n, value) / append(const T*, n) / append(const Array&) bookkeeping of size vs capacity, or operator== / find / front / back answers"],
+        "C04": ["Array::append/resize taking a const reference that may point into the old storage, or Array::insert / remove(index) constructing and destroying the shifted elements", "operations whose argument is the container itself (append(self), insert(self), operator=(self)) on List, HashMap, HashSet, Map, MultiMap, or swap followed by destruction of both containers"],
+        "C05": ["swap exchanges block ownership and re-anchors the sentinels (List, HashMap, HashSet, Map, PoolList, PoolMap): elements must not be relocated and iterators must stay usable in the other container", "tree removal of a two-child node in Map/MultiMap must relink the neighbour node instead of moving payloads, or HashMap insert of an existing key must overwrite in place"],
+        "C06": ["detach-before-write with copy length and minimum capacity (resize/reserve/append on shared, literal or attached strings; the terminator after length())", "printf/fromPrintf formatting with long outputs, join/split/token, startsWith/endsWith/find/findLast/compare answers, or case mapping — including an argument that is the String itself"],
+        "C07": ["clear releases by type and operator= between different payload kinds (list -> string -> map ...), or copy shares heap payloads and copies scalars", "coercions between null/bool/int/uint/int64/uint64/double and decimal strings (toString/toInt/toUInt64/toBool/toDouble) at range boundaries, or equality of a Variant with its copies across types"],
+        "C08": ["prepend: head-room, in-place shift or reallocate (which branch is taken and what it copies)", "resize/reserve/append growth: in-place, compact to front, or reallocate, together with the terminating zero byte and swap/free/clear"],
+        "C09": ["write access clones unless the count is exactly one (String::detach / Variant mutable accessors / Xml value) in a multi-step single-threaded history involving several handles", "Ptr::swap / Ptr::operator= / RefCount::Object release path, or String/Variant assignment chains a = b; b = a; a = a under a second thread holding another handle"],
+        "C10": ["run(): enqueue with back-pressure when the job queue is full, wake, spawn or retire workers (pool growing / shrinking)", "join / destructor / result conversion ordering against completion (store result, publish state, set signal), or abort()/isAborted()/isFinished() flags across a restart of the same Future object"],
+        "C11": ["absolute deadline computation for timed waits (Semaphore/Signal/Monitor wait(timeout): nanosecond carry, timeout 0, long timeouts) or a timed wait returning false early after a spurious wake-up", "Signal::set / reset / wait flag handling under the lock, or Monitor::set releasing exactly one waiter / Monitor::wait consuming the flag"],
+        "C12": ["activation guard defers physical removal until the OUTERMOST emission ends and propagates invalidation (nested emissions of the same signal, disconnect inside a nested emission)", "connect/disconnect mark or unlink on BOTH sides (listener side list vs emitter side list), including disconnecting one of several connections between the same pair or a member function connected twice"],
+        "C13": ["write: direct send when no backlog, else append; the remainder after a PARTIAL send is buffered and write-readiness requested", "postponed / send-buffer size reporting, onWrite delivered exactly once per drain, or suspend/resume while a backlog exists (two cooperating sites)"],
+        "C14": ["poll delivers one buffered event per call; Poll::set / Poll::remove prune buffered events (an event already pending for a socket that is removed or re-registered)", "a failed read or write is followed by onClosed exactly once, listener/establisher removal from inside a callback, or timers with equal due times / a timer removing another timer"],
+        "C15": ["string escaping and recursive serialisation (Json::toString: control characters, quotes, backslash, non-ASCII bytes, 64-bit integers, nested empty containers)", "error line/column reporting, white-space handling between tokens, literals true/false/null prefixes, or reading beyond the terminator on truncated input"],
+        "C16": ["element/content/text parsing with cursor rewind before text, comments wherever white space is allowed, processing instructions before the root", "attribute order / duplicate attributes / attribute value escaping in toString + parse round trip, or copies of element values being independent (clone on mutable access)"],
+        "C17": ["update buffers bytes and compresses full blocks (chunk boundaries: a chunk that exactly fills the buffer, chunks larger than several blocks, empty updates)", "hasher reuse after finalize()/reset() (state, buffer fill and bit counter all re-initialised), or HMAC with key length exactly equal to / one more than the block size"],
+        "C18": ["validator Unicode::isValid / Unicode::length on truncated or overlong sequences, surrogates and values above U+10FFFF, without reading past the given range", "printf-based integer formatting and libc parsing (toInt/toUInt/toInt64/toUInt64 at the extremes, fromInt64/fromUInt64), fromHex / toHex, or base64 encoder output padding"],
+        "C19": ["simplifyPath component loop ('.', '..', repeated separators, leading '../', trailing slash) or getRelativePath prefix walk", "recursive Directory::create and its result reporting, Directory::unlink recursion with symbolic links, or File::copy / rename failure paths leaving files behind"],
+        "C20": ["long options with '=' or separate values, unknown and incomplete options, optional/required argument flags, and the state kept between read() calls", "join/kill reap and close pipes, reading redirected stdout/stderr up to end-of-file, writing to redirected stdin, or Process::open(commandLine) quoting of empty / quoted / escaped arguments"],
+    },
     "5": {
         "C01": ["hinted insert neighbour checks (insert(position, key, value)) or the rotations shiftl/shiftr/rotl/rotr", "copy / bulk insert between maps, or MultiMap find/count over equal keys, or the descending insert + list threading"],
         "C02": ["find-then-link insert of HashSet or PoolMap (insert of an existing key, insert position)", "clear resets bucket heads through cell back-pointers, or swap re-anchors the end sentinel, or the hash functions of Base.hpp"],
